@@ -156,11 +156,14 @@ class Run:
 
 # ---------------------------------------------------------------- history suites
 
-def hist_suite(run, name, harness_args, nontrivial_rule, known=None, use_driver=True, timeout=3000):
+def hist_suite(run, name, harness_args, nontrivial_rule, known=None, use_driver=True, timeout=3000, binary=None, env=None):
     """Runs one harness suite of histories; absorbs coverage; classifies failures.
     known: optional function (HistResult, idx, text) -> finding id or None, attributing a
     spec failure to a listed known finding."""
-    r = vhist.run_hist(harness_args, run.tier, run.seed, run.pid + "-" + name, timeout=timeout, use_driver=use_driver)
+    r = vhist.run_hist(harness_args, run.tier, run.seed, run.pid + "-" + name, timeout=timeout, use_driver=use_driver, binary=binary, env=env)
+    if r.races:
+        run.spec_failures.append(dict(suite=name, source="go race detector", what="%d data race reports; first: %s" % (r.races, r.race_excerpt)))
+        r.rc = 0
     cov = run.cov
     cov["suites"][name] = dict(lines=r.lines, histories=r.histories, mismatches=len(r.mismatch),
                                spec_failures=len(r.spec) + len(r.hspec), info=r.info[-8:])
@@ -505,10 +508,48 @@ def check_C16(run):
     crash_cov(run, r)
 
 
+RULE_CONC = ("4-16 goroutines per database (1-2 databases at once) run mixed View/Update transactions on the real library, built "
+             "with -race, with runtime.Gosched injected at every file mutation through the verif hook; every write transaction reads "
+             "a sequence number and writes it back incremented together with list/set/sorted-set/key-value writes, so its position in the "
+             "serial order is data-derived; checks: no lost update, real-time order, readers see one state (two structures of equal "
+             "size), 20 s deadlock watchdog, race detector; the run is then emitted as a serial trace in that order and replayed by the "
+             "engine model and the L0 specification, and the final state is read back after a clean reopen")
+
+
+def race_binary(run):
+    ok, out, path = vc.build_harness(race=True)
+    if not ok:
+        run.broken_obligations.append(dict(what="race-enabled harness does not build", output=out[-2000:]))
+        return None
+    return path
+
+
+def check_C14(run):
+    b = race_binary(run)
+    n = 25 if run.tier == "quick" else 600
+    hist_suite(run, "conc", ["hist", "-n", n, "-x", "conc"], RULE_CONC, binary=b, env={"GORACE": "halt_on_error=0 exitcode=0"})
+
+
+def check_C17(run):
+    b = race_binary(run)
+    n = 25 if run.tier == "quick" else 600
+    hist_suite(run, "concmerge", ["hist", "-n", n, "-x", "concmerge"], RULE_CONC + "; additionally one goroutine per database calls "
+               "Merge three times while the transactions run (sets instead of lists: known finding F14)", binary=b,
+               env={"GORACE": "halt_on_error=0 exitcode=0"})
+
+
+def check_C18(run):
+    n = 40 if run.tier == "quick" else 800
+    hist_suite(run, "backup", ["hist", "-n", n, "-x", "backup"], RULE_HIST + "; then Backup into a new directory while a writer tries "
+               "to commit: the copy is parked on a FIFO that sorts first in the directory, the harness checks that the write "
+               "transaction cannot commit while the copy is in progress, releases the FIFO, opens the copy with the same options and "
+               "compares its full observation with the one taken just before Backup (every index mode x RWMode)")
+
+
 CHECKS = {
     "C21": check_C21, "C01": check_C01, "C03": check_C03, "C04": check_C04, "C05": check_C05, "C06": check_C06,
     "C07": check_C07, "C08": check_C08, "C12": check_C12, "C13": check_C13,
-    "C15": check_C15, "C16": check_C16,
+    "C15": check_C15, "C16": check_C16, "C14": check_C14, "C17": check_C17, "C18": check_C18,
     "C09": check_C09, "C10": check_C10, "C11": check_C11, "C19": check_C19, "C20": check_C20, "C22": check_C22,
 }
 
